@@ -41,6 +41,7 @@ def preload():
     import codebasin.tree  # noqa
     import codebasin.coverage.__main__  # noqa
 
+    _memoise_check_schema()
     if os.environ.get("CBISIM_PRELOAD_MPL", "1") == "1":
         try:
             import matplotlib
@@ -50,6 +51,49 @@ def preload():
             from scipy.cluster import hierarchy  # noqa
             from scipy.spatial.distance import squareform  # noqa
         except Exception:
+            pass
+
+
+_schema_ok = set()
+
+
+def _memoise_check_schema():
+    """jsonschema.validate() re-validates the *schema* against its metaschema on every call (about
+    20 ms per call, 70 ms per fresh process for the four compiler definition files).  That check is a
+    pure function of the schema text, so it is memoised here, keyed by the schema's content, and
+    pre-warmed with the schema files of the tree under test; children inherit the memo through fork().
+    Validation of instances is untouched."""
+    import glob
+
+    import jsonschema
+    from jsonschema import validators
+    from jsonschema.exceptions import best_match
+
+    if getattr(jsonschema.validate, "_cbisim", False):
+        return
+
+    def validate(instance, schema, cls=None, *args, **kwargs):
+        if cls is None:
+            cls = validators.validator_for(schema)
+        key = json.dumps(schema, sort_keys=True)
+        if key not in _schema_ok:
+            cls.check_schema(schema)
+            _schema_ok.add(key)
+        validator = cls(schema, *args, **kwargs)
+        error = best_match(validator.iter_errors(instance))
+        if error is not None:
+            raise error
+
+    validate._cbisim = True
+    jsonschema.validate = validate
+    validators.validate = validate
+    for p in sorted(glob.glob(os.path.join(REPO, "codebasin", "schema", "*.schema"))):
+        try:
+            with open(p) as f:
+                sch = json.load(f)
+            validators.validator_for(sch).check_schema(sch)
+            _schema_ok.add(json.dumps(sch, sort_keys=True))
+        except Exception:  # noqa - an invalid schema is left for the SUT to report
             pass
 
 
